@@ -630,6 +630,15 @@ def gen_op(rng, cfg, c, ncircs, handles_here, nhandles, force_cls=None):
     return ['op', c, cls, qs, chan, dur, tag, reg, ints, rel]
 
 
+def gdur_values(rng, cfg):
+    """four global durations (readout, microwave, flux, reset); with `allow_zero_gdur` a value is exactly 0 now and then
+    (seeded change C01-m8: an override of 0.0 treated as 'not overridden' — `x or default`)."""
+    vals = [rng.choice(GDUR_CHOICES) for _ in range(4)]
+    if cfg.allow_zero_gdur:
+        vals = [0 if rng.random() < 0.15 else v for v in vals]
+    return vals
+
+
 def gen_program(rng, cfg: GenConfig):
     prog = [['new', 'f1']]
     cfg._copies = set()
@@ -643,7 +652,7 @@ def gen_program(rng, cfg: GenConfig):
     n = rng.randrange(*cfg.n_cmds)
     if cfg.static_durations:
         if rng.random() < 0.5:
-            prog.append(['gdur'] + [rng.choice(GDUR_CHOICES) for _ in range(4)])
+            prog.append(['gdur'] + gdur_values(rng, cfg))
         for key in range(3):
             if rng.random() < 0.6:
                 prog.append(['setreg', key, rng.choice(DURS_FIXED)])
@@ -710,7 +719,7 @@ def gen_program(rng, cfg: GenConfig):
                 prog.append(['gdur-leave'])
                 in_override = False
             else:
-                prog.append(['gdur'] + [rng.choice(GDUR_CHOICES) for _ in range(4)])
+                prog.append(['gdur'] + gdur_values(rng, cfg))
                 in_override = True
             continue
         if kind == 'setreg':
